@@ -9,22 +9,22 @@ package zkmulstar
 //@ pred shaped(p *Proof) := p.group != nil && p.Commitment != nil && p.Bx != nil
 
 //@ func Empty
-//@   nopanic[C05]
+//@   nopanic[C10]
 //@   requires group != nil
 //@   modifies nothing
 //@   allocates
 //@   ensures result != nil && shaped(result)
 
 //@ func (*Proof).IsValid
-//@   nopanic[C05]
+//@   nopanic[C10]
 //@   inline
 //@   requires public.C != nil && public.D != nil && public.X != nil && pkok(public.Verifier) && pedok(public.Aux) && (p != nil ==> shaped(p))
 
 //@ func (*Proof).Verify
-//@   nopanic[C05]
+//@   nopanic[C10]
 //@   requires group != nil && hash != nil && hash.h != nil && public.C != nil && public.D != nil && public.X != nil && pkok(public.Verifier) && pedok(public.Aux) && (p != nil ==> shaped(p))
 
 //@ func challenge
-//@   nopanic[C05]
+//@   nopanic[C10]
 //@   inline
 //@   requires group != nil && hash != nil && hash.h != nil && public.C != nil && public.D != nil && public.X != nil && pkok(public.Verifier) && pedok(public.Aux) && commitment != nil
